@@ -118,3 +118,16 @@ def _(type_constructor: "Opt[TypeConstructor]", types: "Seq[Any]", only_regular:
                                             forall(lambda j: implies(0 <= j and j < len(available_types), (
                                                 not isinstance(available_types[j], TypeParameter)
                                                 and not isinstance(available_types[j], ParameterizedType))))))
+
+
+@contract("src.ir.type_utils.instantiate_parameterized_function")
+def _(type_parameters: "Seq[TypeParameter]", types: "Any", only_regular: "Any", type_var_map: "Any") -> "Any":
+    """a generic function is instantiated with plain types: no variance choices are handed on (so -- by the contract of
+    _get_type_arg_variance, clause no-choices -- no use-site projection can appear among its type arguments), its own type
+    parameters are the ones instantiated, and the pool is filtered for type arguments (no primitives)"""
+    use_profile("helpers")
+    site_call("_compute_type_variable_assignments", "no-projections-for-functions", kw_variance_choices is None)
+    site_call("_compute_type_variable_assignments", "parameters", same(arg0, type_parameters))
+    site_call("_compute_type_variable_assignments", "not-a-class-instantiation", kw_for_type_constructor is False)
+    site_call("_get_available_types", "pool-without-primitives", arg0 is None and kw_primitives is False)
+    site_return("type_var_map", "the-assignment-computed", True)
